@@ -325,10 +325,16 @@ class StdioClient:
                 except Exception as exc:
                     logger.error("Error serializing message in stdin_writer: %s", exc)
                     logger.debug("Failed message type: %s", type(message))
-                    # Lazily formatted: repr() of the message that just failed to
-                    # serialise may fail the same way (e.g. RecursionError for a very
-                    # deep payload) and must not take the writer task down with it
-                    logger.debug("Failed message: %.200r", message)
+                    # repr() of the message that just failed to serialise may fail the
+                    # same way (e.g. RecursionError for a very deep payload) and must
+                    # not take the writer task down with it - neither here nor inside
+                    # the logging handlers, which re-raise RecursionError
+                    if logger.isEnabledFor(logging.DEBUG):
+                        try:
+                            preview = repr(message)[:200]
+                        except Exception:
+                            preview = f"<unprintable {type(message).__name__}>"
+                        logger.debug("Failed message: %s", preview)
                     logger.debug("Traceback:\n%s", traceback.format_exc())
                     continue
 
